@@ -30,6 +30,8 @@ def run(ctx):
     rule_custom_record_tag_scan(ctx, "C01.custom_record_tag_scan")
     from .c13 import rule_segment_tag_scan
     rule_segment_tag_scan(ctx, "C01.segment_tag_scan")
+    from .refgraph import rule_required_links
+    rule_required_links(ctx, "C01.path_required_links")
     fm = codec.field_modules(repo)
     hooks = LineHooks(repo)
     modules = {}
